@@ -317,7 +317,13 @@ func (p *Parser) projRHS(power int) *Node {
 	switch {
 	case lbp[k] < 10:
 		return identity()
-	case k == LBRACKET || k == FILTER:
+	case k == LBRACKET:
+		// only a bracket specifier may continue a projection (not a multi-select list)
+		if n := p.peek(1).Kind; n == NUM || n == COLON || (n == STAR && p.peek(2).Kind == RBRACKET) {
+			return p.expr(power)
+		}
+		p.fail("multi-select list can not continue a projection without a dot")
+	case k == FILTER:
 		return p.expr(power)
 	case k == DOT:
 		p.pos++
